@@ -46,9 +46,15 @@ Fixpoint store_bytes (buf : list Z) (i : Z) (bs : list Z) : option (list Z) :=
               end
   end.
 
+(* firstn / skipn with a Z count (no conversion of a possibly huge count to unary nat) *)
+Fixpoint takeZ (k : Z) (l : list Z) : list Z :=
+  match l with [] => [] | x :: t => if k <=? 0 then [] else x :: takeZ (k - 1) t end.
+Fixpoint dropZ (k : Z) (l : list Z) : list Z :=
+  match l with [] => [] | x :: t => if k <=? 0 then l else dropZ (k - 1) t end.
+
 (* read with default 0 (used on the serialized record, whose reads are tracked by the high-water mark,
    and on data already known to be inside a buffer) *)
-Definition rd (l : list Z) (i : Z) : Z := if i <? 0 then 0 else nth (Z.to_nat i) l 0.
+Definition rd (l : list Z) (i : Z) : Z := if i <? 0 then 0 else hd 0 (dropZ i l).
 
 Fixpoint rd_bytes (l : list Z) (i : Z) (k : nat) : list Z :=
   match k with O => [] | S k' => rd l i :: rd_bytes l (i + 1) k' end.
@@ -60,7 +66,7 @@ Fixpoint cstr (l : list Z) : list Z :=
   | c :: t => if c =? 0 then [] else c :: cstr t
   end.
 
-Definition cstr_at (l : list Z) (i : Z) : list Z := if i <? 0 then [] else cstr (skipn (Z.to_nat i) l).
+Definition cstr_at (l : list Z) (i : Z) : list Z := if i <? 0 then [] else cstr (dropZ i l).
 
 (* little-endian bytes of the low [k] bytes of a value *)
 Fixpoint le_bytes (k : nat) (v : Z) : list Z :=
@@ -149,7 +155,7 @@ Definition strlcpy_m (tag : Z) (buf : list Z) (pos : Z) (src : list Z) (maxlen :
   if maxlen =? 0 then (Some buf, srclen)
   else
     let len2cpy := Z.min (maxlen - 1) srclen in
-    (store_bytes buf pos (firstn (Z.to_nat len2cpy) src ++ [0]), srclen).
+    (store_bytes buf pos (takeZ len2cpy src ++ [0]), srclen).
 
 (* my_strlcpy: "the number of characters written".   fix: maxlen = 0 writes nothing and returns 0
    (as found, QB_MIN(rc, maxlen-1) with maxlen-1 = SIZE_MAX returns strlen(src)). *)
@@ -299,13 +305,19 @@ Definition serialize (fx : bool) (max : Z) (fmt : list Z) (args : list arg) (gar
     match strchr_m b0 LF_XC 0 with
     | None => OutOfBounds 4
     | Some found =>
+      (* QB_XC: '|' when extended information follows, end of the format otherwise.
+         fix: in the second case the arguments start right after the new end of the format *)
       let b1 := match found with
                 | None => Some b0
                 | Some i => store b0 i (if rd b0 (i + 1) =? 0 then 0 else 124)
                 end in
+      let loc1 := match found with
+                  | Some i => if fx && (rd b0 (i + 1) =? 0) then wrap32 (i + 1) else loc
+                  | None => loc
+                  end in
       match b1 with
       | None => OutOfBounds 1
-      | Some b => ser_go fx max fmt SScan (mkS b loc 0 false args)
+      | Some b => ser_go fx max fmt SScan (mkS b loc1 0 false args)
       end
     end
   end.
@@ -414,7 +426,7 @@ Fixpoint des_go (fx : bool) (snp : oracle) (rec : list Z) (blen n : Z)
         (* copy from current to the next %   fix: bounded by the room left in string[] *)
         let l := rev lit in
         if fx && (wrapsz (n - d_loc st) <=? zlen l) then
-          match store_bytes (d_buf st) (d_loc st) (firstn (Z.to_nat (n - d_loc st - 1)) l ++ [0]) with
+          match store_bytes (d_buf st) (d_loc st) (takeZ (n - d_loc st - 1) l ++ [0]) with
           | None => OutOfBounds 2
           | Some b => Done n b (d_hw st)
           end
@@ -450,7 +462,7 @@ Fixpoint des_go (fx : bool) (snp : oracle) (rec : list Z) (blen n : Z)
           let v := to_signed (8 * LF_SIZEOF_INT) (le_val (rd_bytes rec (d_pos st) (Z.to_nat LF_SIZEOF_INT))) in
           let digits := dec v in
           let nn := wrapsz (LF_MINI_FORMAT_STR_LEN - fpos) in
-          let w := if nn =? 0 then [] else firstn (Z.to_nat (nn - 1)) digits ++ [0] in
+          let w := if nn =? 0 then [] else takeZ (nn - 1) digits ++ [0] in
           match store_bytes mini fpos w with
           | None => OutOfBounds 3
           | Some m1 =>
@@ -540,7 +552,7 @@ Definition deserialize (fx : bool) (snp : oracle) (rec : list Z) (blen n : Z) (g
 Definition snp_of (render1 : list Z -> Z -> list Z -> list Z) : oracle :=
   fun fmt kind a n =>
     let r := render1 fmt kind a in
-    (zlen r, if n =? 0 then [] else firstn (Z.to_nat (n - 1)) r ++ [0]).
+    (zlen r, if n =? 0 then [] else takeZ (n - 1) r ++ [0]).
 
 (* weakest contract the bounds theorem needs: never more than n bytes are written *)
 Definition snp_writes_at_most_n (snp : oracle) : Prop :=
@@ -577,7 +589,7 @@ Definition arg_bytes (kind : Z) (a : arg) : list Z :=
 
 Definition str_arg (d : pdir) (a : arg) : list Z :=
   match a with
-  | AStr s => if p_plen d =? 0 then cstr s else firstn (Z.to_nat (p_plen d)) (cstr s)
+  | AStr s => if p_plen d =? 0 then cstr s else takeZ (p_plen d) (cstr s)
   | _ => null_text
   end.
 
